@@ -17,6 +17,7 @@ import (
 	"fmt"
 	"runtime"
 	"strconv"
+	"strings"
 	"sync"
 	"time"
 )
@@ -32,6 +33,66 @@ func curGID() uint64 {
 	id, _ := strconv.ParseUint(string(f[1]), 10, 64)
 
 	return id
+}
+
+// goWaiting reports whether goroutine gid exists and sits in a waiting state (not running/runnable,
+// not a momentary mutex acquisition).
+func goWaiting(gid uint64) bool {
+	buf := make([]byte, 1<<18)
+	for {
+		n := runtime.Stack(buf, true)
+		if n < len(buf) {
+			buf = buf[:n]
+
+			break
+		}
+		buf = make([]byte, 2*len(buf))
+	}
+	key := []byte(fmt.Sprintf("goroutine %d [", gid))
+	i := bytes.Index(buf, key)
+	if i < 0 || (i > 0 && buf[i-1] != '\n') {
+		return false
+	}
+	rest := buf[i+len(key):]
+	j := bytes.IndexByte(rest, ']')
+	if j < 0 {
+		return false
+	}
+	st := string(rest[:j])
+	if k := strings.IndexByte(st, ','); k >= 0 { // "chan receive, 2 minutes"
+		st = st[:k]
+	}
+	switch st {
+	case "chan receive", "chan send", "select", "sync.Cond.Wait", "sync.WaitGroup.Wait", "sleep", "IO wait",
+		"chan receive (nil chan)", "chan send (nil chan)", "select (no cases)", "semacquire":
+		return true
+	}
+
+	return false
+}
+
+// waitParkedProbe waits until th parks or finishes (true), or until its goroutine has been waiting
+// continuously for `need` (false). Gives up after 10 s.
+func (s *Sched) waitParkedProbe(th *schedThread, need time.Duration) bool {
+	deadline := time.Now().Add(10 * time.Second)
+	var since time.Time
+	for time.Now().Before(deadline) {
+		if s.waitParked(th, 400*time.Microsecond) {
+			return true
+		}
+		if goWaiting(th.gid) {
+			if since.IsZero() {
+				since = time.Now()
+			} else if time.Since(since) >= need {
+				// a last look: it may have parked meanwhile
+				return s.waitParked(th, 0)
+			}
+		} else {
+			since = time.Time{}
+		}
+	}
+
+	return false
 }
 
 type schedThread struct {
@@ -51,13 +112,13 @@ const (
 
 // Sched controls one run.
 type Sched struct {
-	mu           sync.Mutex
-	cond         *sync.Cond
-	byGID        map[uint64]*schedThread
-	byName       map[string]*schedThread
-	order        []string
-	workers      int
-	notes        []string
+	mu             sync.Mutex
+	cond           *sync.Cond
+	byGID          map[uint64]*schedThread
+	byName         map[string]*schedThread
+	order          []string
+	workers        int
+	notes          []string
 	BlockTimeout   time.Duration
 	RecheckTimeout time.Duration
 	AdoptPrefix    string
@@ -66,12 +127,19 @@ type Sched struct {
 	tnames         []string
 	blockedFlag    map[string]bool
 	finished       map[string]bool
+	// Probe switches blocked-detection from "did not park within BlockTimeout" to "its goroutine has
+	// been in a waiting state (channel, Cond, WaitGroup, select, sleep) for ProbeWait without a break":
+	// time spent runnable on a loaded machine does not count. After a label ending in ".wait" (the
+	// convention for the yield right before a blocking primitive) ProbeWaitShort is used instead.
+	Probe          bool
+	ProbeWait      time.Duration
+	ProbeWaitShort time.Duration
 }
 
 // NewSched creates a scheduler; install its Yield with the library's VerifSetYield.
 func NewSched() *Sched {
 	s := &Sched{byGID: map[uint64]*schedThread{}, byName: map[string]*schedThread{}, BlockTimeout: 40 * time.Millisecond, RecheckTimeout: 6 * time.Millisecond, AdoptPrefix: "W",
-		blockedFlag: map[string]bool{}, finished: map[string]bool{}}
+		blockedFlag: map[string]bool{}, finished: map[string]bool{}, ProbeWait: 30 * time.Millisecond, ProbeWaitShort: 3 * time.Millisecond}
 	s.cond = sync.NewCond(&s.mu)
 
 	return s
@@ -204,6 +272,9 @@ func (s *Sched) step(name string) string {
 			return "skip"
 		}
 		deadline := time.Now().Add(s.BlockTimeout)
+		if s.Probe { // it has been spawned (k < spawns), so it will reach its first yield
+			deadline = time.Now().Add(5 * time.Second)
+		}
 		for !ok && time.Now().Before(deadline) {
 			time.Sleep(100 * time.Microsecond)
 			s.mu.Lock()
@@ -226,7 +297,15 @@ func (s *Sched) step(name string) string {
 		if wasBlocked {
 			to = s.RecheckTimeout
 		}
-		if !s.waitParked(th, to) {
+		if s.Probe {
+			need := s.ProbeWait
+			if wasBlocked {
+				need = s.ProbeWaitShort
+			}
+			if !s.waitParkedProbe(th, need) {
+				return "skip"
+			}
+		} else if !s.waitParked(th, to) {
 			return "skip"
 		}
 		s.mu.Lock()
@@ -240,8 +319,21 @@ func (s *Sched) step(name string) string {
 	th.state = thFlying
 	th.blocked = false
 	s.mu.Unlock()
+	s.mu.Lock()
+	fromWait := strings.HasSuffix(th.label, ".wait")
+	s.mu.Unlock()
 	th.resume <- struct{}{}
-	if !s.waitParked(th, s.BlockTimeout) {
+	parked := false
+	if s.Probe {
+		need := s.ProbeWait
+		if fromWait {
+			need = s.ProbeWaitShort
+		}
+		parked = s.waitParkedProbe(th, need)
+	} else {
+		parked = s.waitParked(th, s.BlockTimeout)
+	}
+	if !parked {
 		s.mu.Lock()
 		th.blocked = true
 		s.mu.Unlock()
